@@ -44,6 +44,42 @@ impl GetSigningKeyRequest {
     pub closed spec fn s_request_date(&self) -> NaiveDate { self.request_date }
     pub closed spec fn s_region(&self) -> String { self.region }
     pub closed spec fn s_service(&self) -> String { self.service }
+//@ fn signing_key.rs impl GetSigningKeyRequest :: access_key
+//@ params
+//@ props C08 C03
+//@ ret r
+//@ spec
+        ensures r@ == self.s_access_key()@ //# C03 name=request_access_key_accessor
+//@ end
+//@ fn signing_key.rs impl GetSigningKeyRequest :: session_token
+//@ params
+//@ props C08 C03
+//@ ret r
+//@ replace 1 `self.session_token.as_deref()` => `option_string_as_deref(&self.session_token)`
+//@ spec
+        ensures (r is Some) == (self.s_session_token() is Some), r is Some ==> r->Some_0@ == self.s_session_token()->Some_0@ //# C03 name=request_session_token_accessor
+//@ end
+//@ fn signing_key.rs impl GetSigningKeyRequest :: request_date
+//@ params
+//@ props C08 C03
+//@ ret r
+//@ spec
+        ensures r == self.s_request_date() //# C03 name=request_date_accessor
+//@ end
+//@ fn signing_key.rs impl GetSigningKeyRequest :: region
+//@ params
+//@ props C08 C03
+//@ ret r
+//@ spec
+        ensures r@ == self.s_region()@ //# C03 name=request_region_accessor
+//@ end
+//@ fn signing_key.rs impl GetSigningKeyRequest :: service
+//@ params
+//@ props C08 C03
+//@ ret r
+//@ spec
+        ensures r@ == self.s_service()@ //# C03 name=request_service_accessor
+//@ end
     /// `GetSigningKeyRequest::builder()` = `GetSigningKeyRequestBuilder::default()`
     #[verifier::external_body]
     pub fn builder() -> (r: GetSigningKeyRequestBuilder)
